@@ -495,7 +495,9 @@ func genOverridePair(c *sim.Case) (def, ov doc) {
 		place("logout", doc{"path": "/logout", "redirect_uri": "http://default.test/logout"}, doc{"path": "/signout"})
 	}
 	if sim.Bool(c, "pair.scopes") {
-		place("scopes", []any{"email"}, []any{"profile", "groups"})
+		// (decoded lists of 3 or 5-7 entries have spare capacity: whoever appends to one in place shares it)
+		place("scopes", [][]any{{"email"}, {"profile", "email", "groups"}, {"a", "b", "c", "d", "e"}, {"openid", "email", "x"}}[sim.Pick(c, "pair.defscopes", 4)],
+			[][]any{{"profile", "groups"}, {"email"}, {}, {"offline_access"}}[sim.Pick(c, "pair.ovscopes", 4)])
 	}
 	if sim.Bool(c, "pair.at") {
 		place("access_token", doc{"header": "x-default-at"}, doc{"header": "x-override-at", "preamble": "Bearer"})
